@@ -18,6 +18,7 @@ LEVEL_TEXT = (
     "difference (accepted only when two step sizes agree to 1e-6). A failing case is re-run with backend.linalg.qr_r replaced harness-side "
     "by plain jnp.linalg.qr (exact JVP) / with an explicit triangular solve in the loss: if the failure disappears it is attributed to the "
     "recorded finding, otherwise it is a new violation."
+    ' A deterministic corner sweep runs on every execution: std / terminal-loss objectives x {theta, u0, scale} x {mle, none} x filter/smoother x 3 factorisations with exact (zero-covariance) initial states.'
 )
 LEVEL_NOTE = "Trusted: finite differences with Richardson agreement as ground truth (noise <= 1e-9 observed, genuine errors >= 1e-3); stop-gradient paths (dt, default dynamic calibration) are excluded as the property states."
 RULE = (
